@@ -167,11 +167,66 @@ def _listener_unit(m):
     raise AnchorMissing('collection of the listeners (_subscriptions / _active_connections) not found in broadcast_event')
 
 
+def _expand_comprehensions(e):
+    """generator variables that run over a literal tuple / list are replaced by each of its elements: the list of expressions
+    `[self._subscriptions[key] for key in (a, b)]` stands for `self._subscriptions[a]`, `self._subscriptions[b]`"""
+    from sa.model import _clone_ast
+    out = [e]
+    for comp in [x for x in ast.walk(e) if isinstance(x, (ast.ListComp, ast.SetComp, ast.GeneratorExp))]:
+        for g in comp.generators:
+            if isinstance(g.target, ast.Name) and isinstance(g.iter, (ast.Tuple, ast.List)):
+                for el in g.iter.elts:
+                    class _S(ast.NodeTransformer):
+                        def visit_Name(self, node, el=el, name=g.target.id):
+                            return _clone_ast(el) if node.id == name and isinstance(node.ctx, ast.Load) else node
+                    out.append(_S().visit(_clone_ast(comp.elt)))
+                    out += [_S().visit(_clone_ast(t)) for t in g.ifs]
+    return out
+
+
+def _subscription_keys(exprs):
+    """key expressions with which `self._subscriptions` is consulted inside the given expressions"""
+    keys = []
+    for e in exprs:
+        for x in ast.walk(e):
+            if isinstance(x, ast.Call) and call_attr(x) in ('get', 'setdefault', 'pop') and src(x.func.value).endswith('_subscriptions') and x.args:
+                keys.append(x.args[0])
+            elif isinstance(x, ast.Subscript) and src(x.value).endswith('_subscriptions'):
+                keys.append(x.slice)
+    return keys
+
+
+_FRESH_CALLS = {'copy', 'union', 'difference', 'intersection', 'symmetric_difference'}
+_FRESH_FUNCS = {'set', 'list', 'frozenset', 'sorted', 'tuple'}
+
+
+def _fresh(e, unode, depth=4):
+    """the expression builds a new collection (a copy, a union, a literal, a comprehension)"""
+    if isinstance(e, ast.Call):
+        return call_attr(e) in _FRESH_CALLS or dotted(e.func) in _FRESH_FUNCS
+    if isinstance(e, (ast.BinOp, ast.ListComp, ast.SetComp, ast.Set, ast.List, ast.Tuple, ast.GeneratorExp)):
+        return True
+    if isinstance(e, ast.IfExp):
+        return _fresh(e.body, unode, depth) and _fresh(e.orelse, unode, depth)
+    if isinstance(e, ast.Name) and depth:
+        defs = [v for v, st, how in local_assigns(unode, e.id) if how == 'assign' and v is not None]
+        return bool(defs) and all(_fresh(v, unode, depth - 1) for v in defs)
+    return False
+
+
+def _live_set(e):
+    """the expression denotes one of the dispatcher's own sets (which request threads change at any time)"""
+    t = src(e)
+    return isinstance(e, (ast.Attribute, ast.Subscript, ast.Call)) and not _fresh(e, None, 0) and \
+        (t.startswith('self._subscriptions') or t.startswith('self._active_connections'))
+
+
 @rule('C08.R4', min_instances=3)
 def listener_sources(ctx):
     """broadcast_event: the listeners of an event are the subscribers of module:param, the subscribers of the module and the
     globally activated connections - merged into a FRESH set (an in-place merge into the stored subscription set would make
-    everybody a permanent subscriber of that parameter)"""
+    everybody a permanent subscriber of that parameter; iterating one of the stored sets itself breaks off with RuntimeError
+    when a request thread changes it meanwhile, the remaining listeners never get the message)"""
     m = ctx.m
     f, u = _listener_unit(m)
     ctx.analysed(f)
@@ -179,20 +234,22 @@ def listener_sources(ctx):
     sends = [n for n in body_walk(f.node) if isinstance(n, ast.For) and any(call_attr(c) == 'send_reply' for c in calls_in(n))]
     if not sends:
         raise AnchorMissing('send loop in broadcast_event not found')
-    # the local that holds the listeners in the unit: what is returned (helper) / iterated by the send loop (broadcast_event)
+    # the expressions the listeners come from: what the helper returns / what the iterated local is bound to, with the locals
+    # they mention read through, plus everything merged into such a local in place
     if u is f:
-        lnames = {x.id for x in ast.walk(sends[0].iter) if isinstance(x, ast.Name)}
+        roots = [sends[0].iter]
     else:
-        lnames = {x.id for r in body_walk(u.node) if isinstance(r, ast.Return) and r.value is not None for x in ast.walk(r.value) if isinstance(x, ast.Name)}
-    lnames = {n for n in lnames if any(how in ('assign', 'aug') for v, st, how in local_assigns(u.node, n))}
-    if not lnames:
-        ctx.undecided(f'{u.qualname}:listeners is a fresh copy', u.node, 'the local holding the listeners was not recognised', u)
-        return
-    parts = []      # every expression merged into the listeners
-    inplace = []
+        roots = [r.value for r in body_walk(u.node) if isinstance(r, ast.Return) and r.value is not None]
+    lnames = {x.id for r in roots for x in ast.walk(r) if isinstance(x, ast.Name) and any(how in ('assign', 'aug') for v, st, how in local_assigns(u.node, x.id))}
+    sources = []        # (expression, statement) of every definition of the listeners
+    for r in roots:
+        if not isinstance(r, ast.Name):
+            sources.append((r, enclosing_stmt(r)))
+    parts, inplace = [r for r in roots], []
     for n in body_walk(u.node):
         if isinstance(n, ast.Assign) and isinstance(n.targets[0], ast.Name) and n.targets[0].id in lnames:
             parts.append(n.value)
+            sources.append((n.value, n))
         if isinstance(n, ast.AugAssign) and isinstance(n.target, ast.Name) and n.target.id in lnames:
             parts.append(n.value)
             inplace.append(n)
@@ -200,22 +257,33 @@ def listener_sources(ctx):
             parts += list(n.args)
             if call_attr(n) != 'union':
                 inplace.append(n)
-    text = ' '.join(src(resolved(x, u.node), 600) for x in parts)
+    if not parts:
+        ctx.undecided(f'{u.qualname}:listeners is a fresh copy', u.node, 'the expressions the listeners come from were not recognised', u)
+        return
+    full = [y for x in parts for y in _expand_comprehensions(resolved(x, u.node))]
+    text = ' '.join(src(x, 600) for x in full)
     ev = 'msg[1]' if u is f else (u.node.args.args[1].arg if len(u.node.args.args) > 1 else 'eventname')
-    has_param = '_subscriptions' in text and any(src(a0) == ev for c in ast.walk(ast.Module(body=[ast.Expr(value=resolved(x, u.node)) for x in parts], type_ignores=[]))
-                                                 if isinstance(c, ast.Call) and c.args for a0 in c.args[:1])
+    keys = [resolved(k, u.node) for k in _subscription_keys(full)]
+    has_param = any(src(k) == ev for k in keys)
     ctx.check(has_param, f'{f.qualname}:parameter subscribers', u.node, 'subscribers of module:param are listeners', 'subscribers of the event name are not selected', u)
-    has_mod = "split(':'" in text or "partition(':'" in text
-    ctx.check(has_mod and '_subscriptions' in text, f'{f.qualname}:module subscribers', u.node,
+    has_mod = any(("split(':'" in src(k) or "partition(':'" in src(k)) and ev in src(k) for k in keys)
+    ctx.check(has_mod, f'{f.qualname}:module subscribers', u.node,
               'subscribers of the module are listeners', 'subscribers of the whole module are not selected', u)
     ctx.check('_active_connections' in text, f'{f.qualname}:active connections', u.node,
               'globally activated connections are listeners', 'globally activated connections are not selected', u)
-    # freshness of every definition of the listeners local
-    for n in body_walk(u.node):
-        if isinstance(n, ast.Assign) and isinstance(n.targets[0], ast.Name) and n.targets[0].id in lnames and '_subscriptions' in src(resolved(n.value, u.node)):
-            v = n.value
-            fresh = (isinstance(v, ast.Call) and (call_attr(v) in ('copy', 'union') or dotted(v.func) in ('set', 'list', 'frozenset'))) or \
-                (isinstance(v, ast.BinOp) and isinstance(v.op, ast.BitOr))
+    # freshness of every definition of the listeners
+    for v, n in sources:
+        for alt in ([v.body, v.orelse] if isinstance(v, ast.IfExp) else [v]):
+            t = src(resolved(alt, u.node))
+            if '_subscriptions' not in t and '_active_connections' not in t:
+                continue
+            fresh = _fresh(alt, u.node)
+            if not fresh and _live_set(resolved(alt, u.node)) and not inplace:
+                ctx.bad(f'{f.qualname}:listeners is a fresh copy', n,
+                        f'`{src(alt)}` hands out the stored set itself and the send loop iterates it without the dispatcher lock: when a request thread '
+                        'activates, deactivates or disconnects meanwhile the loop ends with "RuntimeError: Set changed size during iteration" - the '
+                        'remaining activated connections never get this update although the cache has changed', u)
+                continue
             ctx.check(fresh or not inplace, f'{f.qualname}:listeners is a fresh copy', n,
                       'the subscription set is copied before other listeners are merged in',
                       f'`{src(n)}` takes the stored subscription set itself and `{src(inplace[0]) if inplace else ""}` then extends it in place: after one broadcast the '
@@ -380,6 +448,15 @@ def a_message_is_delivered_or_the_connection_dropped(ctx):
         raise AnchorMissing('handlers around the socket send in send_reply not found')
 
 
+@rule('C08.R9', min_instances=4)
+def store_and_notification_are_atomic(ctx):
+    """shared with C05.R2: the cache store, the parameter callbacks and the dispatcher notification of one update happen
+    inside the module's update lock - with two threads updating one parameter the message built last is otherwise not the
+    one sent last, and the last message a connection holds differs from the cache once things are quiet"""
+    from sa.rules import c05
+    c05.lock_coverage(ctx)
+
+
 @rule('C08.R3c', min_instances=1)
 def scope_prefix_has_separator(ctx):
     """a prefix test over the subscription keys (module scope covers its module:parameter entries) uses `<module>:` with
@@ -400,6 +477,34 @@ def registration_is_unconditional_and_the_table_is_never_replaced(ctx):
     cfg = CFG(sub.node, m, sub.module)
     adds = [i for c in calls_in(sub.node) if call_attr(c) in ('add', 'append') and '_subscriptions' in src(c.func) for i in cfg.node_of(c)]
     adds += [i for n in body_walk(sub.node) if isinstance(n, ast.Assign) and any('_subscriptions[' in src(t) for t in n.targets) for i in cfg.node_of(n)]
+    # the two step form: `s = table.get(ev)`, a fresh set when there is none, `s.add(conn)`, the fresh set stored in the table
+    for c in calls_in(sub.node):
+        if not (call_attr(c) in ('add', 'append') and isinstance(c.func.value, ast.Name)):
+            continue
+        name = c.func.value.id
+        defs = [(v, st) for v, st, how in local_assigns(sub.node, name) if how == 'assign' and v is not None]
+        looked_up = [v for v, st in defs if '_subscriptions' in src(v)]
+        if not looked_up:
+            continue
+        key = f'{sub.qualname}:a fresh set is used only when the event has no set yet'
+        fresh_defs = [(v, st) for v, st in defs if '_subscriptions' not in src(v)]
+        by_truth = [v for v in looked_up if isinstance(v, ast.BoolOp)] + \
+            [t.ast for t in cfg.nodes if t.kind == 'test' and not isinstance(t.ast, ast.stmt) and
+             any(isinstance(a, ast.Name) and a.id == name for a, tv in facts_on_side(t.ast, True) + facts_on_side(t.ast, False))]
+        if by_truth:
+            ctx.bad(key, by_truth[0], f'`{src(by_truth[0])}` decides by the truth value of the stored set: a set that exists but is EMPTY (every scope that was '
+                    'activated before and lost its subscribers - sets are emptied by deactivate / *IDN? / disconnect, never removed) is replaced by a fresh set '
+                    'that the table does not hold - the connection is told `active` and no later update of that scope is delivered', sub)
+            continue
+        stores = [i for n in calls_in(sub.node) if call_attr(n) == 'setdefault' and '_subscriptions' in src(n.func) and len(n.args) == 2
+                  and src(n.args[1]) == name for i in cfg.node_of(n)]
+        stores += [i for n in body_walk(sub.node) if isinstance(n, ast.Assign) and any('_subscriptions[' in src(t) for t in n.targets)
+                   and src(n.value) == name for i in cfg.node_of(n)]
+        ok_store = not fresh_defs or all(cfg.all_paths_pass(cfg.ids(st), [cfg.exit], stores, exc=False) for v, st in fresh_defs)
+        ctx.check(ok_store, key, c, 'the looked up set is tested by identity, a fresh one is stored in the table on every path',
+                  f'the fresh set bound to `{name}` is not stored in the subscription table on every path: the connection is added to a set nobody reads', sub)
+        if ok_store:
+            adds += list(cfg.node_of(c))
     ok = bool(adds) and cfg.all_paths_pass([cfg.entry], [cfg.exit], adds, exc=False)
     ctx.check(ok, f'{sub.qualname}:records the subscription on every path', sub.node, 'no normal path around _subscriptions...add(conn)',
               'subscribe() can return without recording the connection under the event name: the client gets `active <scope>` '
